@@ -137,6 +137,12 @@ func runCase(ctx context.Context, s *hx.Session, tc tcase) error {
 			s.Hit("node_lock_refused")
 		}
 	}
+	if o.Foreign {
+		s.Hit("tracker_holds_another_items_identity")
+	}
+	if o.ReadAliased {
+		s.Hit("tracked_read_aliased")
+	}
 	if reached || tc.root {
 		s.Nontrivial()
 	}
@@ -168,6 +174,8 @@ func runCase(ctx context.Context, s *hx.Session, tc tcase) error {
 			// some writer's inner-node removal published a lock record under the SUCCESSOR's identity, which is
 			// another writer's item
 			s.Fail("C04/merge-removes-another-item-after-inner-node-removal", "an inner-node removal is tracked (and lock-recorded) under the successor's identity: a writer on that successor item meets a lock conflict, or the replay of the mis-tracked removal fails, although the key sets are disjoint", detail)
+		case r == "err:merge" && o.ReadAliased:
+			s.Fail("C04/merge-fails-on-aliased-tracked-read", "a writer that read an item and also adds/removes in the same node fails 'failed to find item' at its second refetch: the tracked read's item pointer aliases a node slot that the merge replay shifted", detail)
 		case r == "err:itemlock" && o.Refused[w] > 0:
 			s.Fail("C04/self-lock-conflict-after-refused-node-lock", "a writer with an update/remove whose node lock was refused once fails its commit on its OWN item lock records", detail)
 		default:
@@ -195,7 +203,7 @@ func runCase(ctx context.Context, s *hx.Session, tc tcase) error {
 				continue // no refetch-and-merge happened in this writer
 			}
 			for _, op := range tc.sc.Writers[w].Ops {
-				if op.Kind == "rm" && hasKey(final, op.Key) && sig == "C04/final-state-differs" {
+				if o.Foreign && op.Kind == "rm" && hasKey(final, op.Key) && sig == "C04/final-state-differs" {
 					// the committed writer's removed key is back and another key is gone
 					sig = "C04/merge-removes-another-item-after-inner-node-removal"
 				}
